@@ -505,7 +505,7 @@ func (w *fsWalker) walk(b *ssa.BasicBlock, idx int, prev *ssa.BasicBlock, s *fsS
 							}
 						}
 					}
-				} else if call, ok := cond.(*ssa.Call); ok && errPredicates[calleeName(call)] && len(call.Call.Args) > 0 {
+				} else if call, ok := cond.(*ssa.Call); ok && isErrPredicate(call) {
 					arg := call.Call.Args[0]
 					// I7 not-exist tolerance: "the thing is not there" is an answer, not a failure
 					notExist := calleeName(call) == "os.IsNotExist" || (calleeName(call) == "errors.Is" && len(call.Call.Args) == 2 && vGlobal("os.ErrNotExist")(call.Call.Args[1]))
